@@ -776,9 +776,10 @@ func MakeConnWithCompleteHandshake(tcpConn net.Conn, version uint16, cipherSuite
 		var clientCipher, serverCipher interface{}
 		var clientHash, serverHash hash.Hash
 		if cs.cipher != nil {
-			clientCipher = cs.cipher(clientKey, clientIV, true /* for reading */)
+			// the client writes with the client keys and the server reads with them
+			clientCipher = cs.cipher(clientKey, clientIV, !isClient /* for reading on the server side */)
 			clientHash = cs.mac(clientMAC)
-			serverCipher = cs.cipher(serverKey, serverIV, false /* not for reading */)
+			serverCipher = cs.cipher(serverKey, serverIV, isClient /* for reading on the client side */)
 			serverHash = cs.mac(serverMAC)
 		} else {
 			clientCipher = cs.aead(clientKey, clientIV)
